@@ -176,7 +176,7 @@ type solveAnswer struct {
 func solveOne(file, relaxedFile string, timeoutS int, which []solverSpec) solveAnswer {
 	ctx, cancel := context.WithCancel(context.Background())
 	defer cancel()
-	ch := make(chan solveAnswer, len(which)+1)
+	ch := make(chan solveAnswer, len(which)+2)
 	n := 0
 	for _, s := range which {
 		s := s
@@ -187,6 +187,14 @@ func solveOne(file, relaxedFile string, timeoutS int, which []solverSpec) solveA
 		}()
 	}
 	if relaxedFile != "" {
+		// z3 4.8.12 on the relaxed query as well: it finds candidate models the newer
+		// z3 times out on (and vice versa); both answers are only ever used as unsat
+		// (fewer hypotheses: sound) or as a candidate model that must replay
+		n++
+		go func() {
+			r, o, t := runSolver(ctx, solvers[0], relaxedFile, timeoutS)
+			ch <- solveAnswer{r, solvers[0].name + "(relaxed)", o, t, true}
+		}()
 		n++
 		go func() {
 			r, o, t := runSolver(ctx, solvers[1], relaxedFile, timeoutS)
